@@ -87,7 +87,11 @@ def decorate(case, rng, dflags):
     R = lambda v: f'{v}_{rk}'   # noqa: E731
 
     decl = ['    real(kind=%s) :: zw(n), zs, zv(n, m)' % rk, '    real(kind=%s) :: zf(4)' % rk, '    integer :: jz, kz',
-            '    real(kind=%s) :: zp, zu1, zu2' % rk, '    real(kind=%s) :: zq(1:n, 3, 1:2)' % rk]
+            '    real(kind=%s) :: zp, zu1, zu2' % rk,
+            '    real(kind=%s) :: zq(%s)' % (rk, '1:n, 3, 1:2' if dflags.get('range_decl') else 'n, 3, 2')]
+    if dflags.get('range_decl'):
+        marks['range_decl'] = True
+        feats.add('d:range_decl')
     spec_tail = []
     if dflags.get('stmt_func'):
         decl.append('    real(kind=%s) :: sfn, sfx' % rk)
@@ -150,8 +154,12 @@ def decorate(case, rng, dflags):
             ['    call hsub(n, c1(1, 1), zs, s2)'])
         marks['seq_assoc'] = True
     if dflags.get('dead_code'):
-        v = rng.randrange(3)
-        if v == 0:
+        v = rng.randrange(4)
+        if v == 3:
+            blk('dead_code', ['    if (.true.) then', f'      zs = {R("3.0")}', '      if (.false.) then', f'        zs = {R("7.5")}',
+                              '      end if', '      if (lg1) then', '        if (.not. .true.) then', f'          zs = {R("0.5")}',
+                              '        end if', '      end if', '    end if'])
+        elif v == 0:
             blk('dead_code', ['    if (.false.) then', f'      zs = {R("3.0")}', '    end if'])
         elif v == 1:
             blk('dead_code', ['    if (.true.) then', f'      zs = {R("3.0")}', '    else', f'      zs = {R("7.5")}', '    end if'])
@@ -284,17 +292,19 @@ def _where_is_block(st):
 
 DECOR_FLAGS = ['unroll', 'fusion', 'interchange', 'fission', 'outline', 'remove', 'hoist_region', 'inline_call',
                'seq_assoc', 'dead_code', 'dup_args', 'vec', 'constants', 'use_constants', 'fun_calls', 'stmt_func',
-               'local_kind', 'unused_import', 'assumed_shape', 'lower_const']
+               'local_kind', 'unused_import', 'assumed_shape', 'lower_const', 'range_decl']
 
 
 def make_case(rng, idx, gates=None):
     """
-    ``gates``: dict of gated features that are on only in small slices (decided by the caller):
-    unroll_neg, io_in_kernel, named_cycle_exit, mixed_case ...
+    ``gates``: gated features that are on only in small slices, decided by the caller (unroll_neg, io_in_kernel,
+    named_cycle_exit, mixed_case ...) and the requirements of the registry slice the case is made for:
+    ``dflags`` (decorations forced on / off), ``pflags`` (ProgGen flags), ``need_has`` (helpers / derived type the
+    program must contain: 'hsub', 'hfun', 'hele', 'isub', 'ifun', 't1'; 'no-functions').
     """
     gates = gates or {}
     pf = {}
-    pf['kinds_module'] = gates.get('kinds_module', rng.random() < 0.7)
+    pf['kinds_module'] = gates.get('kinds_module', rng.random() < 0.6)
     pf['max_stmts'] = rng.choice([4, 6, 8, 12])
     pf['overlap'] = False
     pf['long_expr'] = False
@@ -305,21 +315,64 @@ def make_case(rng, idx, gates=None):
     pf['where'] = rng.random() < 0.5
     for k, v in (gates.get('pflags') or {}).items():
         pf[k] = v
-    case = ProgGen(rng, pf).generate()
+    need = set(gates.get('need_has') or ())
+    case = None
+    for _ in range(12):
+        case = ProgGen(rng, pf).generate()
+        txt = case.units
+        have = {h for h in ('hsub', 'hfun', 'hele', 'isub', 'ifun') if f'subroutine {h}(' in txt or f'function {h}(' in txt}
+        if 'type(ttype)' in txt:
+            have.add('t1')
+        if not have & {'hfun', 'hele', 'ifun'}:
+            have.add('no-functions')
+        if 't1' not in have:
+            have.add('no-t1')
+        if need <= have:
+            break
     df = {k: rng.random() < 0.6 for k in DECOR_FLAGS}
     df['stmt_func'] = rng.random() < 0.25
-    df['constants'] = df['constants'] and pf['kinds_module']
     df['wrap_region'] = rng.choice([None, 'outline', 'remove', 'outline'])
     df['mixed_case'] = bool(gates.get('mixed_case', rng.random() < 0.25))
     df['unroll_neg'] = bool(gates.get('unroll_neg'))
-    df['assumed_shape'] = rng.random() < 0.25
-    if df['assumed_shape']:
-        df['seq_assoc'] = False       # an element actual for an assumed-shape dummy is not Fortran
+    df['assumed_shape'] = False
     for k, v in (gates.get('dflags') or {}).items():
         df[k] = v
+    df['constants'] = df['constants'] and pf['kinds_module']
+    if df['assumed_shape']:
+        df['seq_assoc'] = False       # an element actual for an assumed-shape dummy is not Fortran
     wc = decorate(case, rng, df)
     wc.marks['dflags'] = {k: v for k, v in df.items() if v}
     return wc
+
+
+def slice_requirements(entries, rng):
+    """merge the ``needs`` of the entries of a registry slice into make_case gates (conflicts: random winner)"""
+    d, p, has = {}, {}, set()
+    order = list(entries)
+    rng.shuffle(order)
+    for e in order:
+        n = e.needs or {}
+        ok = all(d.get(k, v) == v for k, v in (n.get('d') or {}).items()) and \
+            all(p.get(k, v) == v for k, v in (n.get('p') or {}).items()) and \
+            not ({'no-functions'} & set(n.get('has', ())) and has & {'hfun', 'hele', 'ifun'}) and \
+            not ({'hfun', 'hele', 'ifun'} & set(n.get('has', ())) and 'no-functions' in has) and \
+            not ('no-t1' in n.get('has', ()) and 't1' in has) and not ('t1' in n.get('has', ()) and 'no-t1' in has)
+        if not ok:
+            continue
+        d.update(n.get('d') or {})
+        p.update(n.get('p') or {})
+        has |= set(n.get('has', ()))
+    if 'no-functions' in has:
+        p['functions'] = False
+    if has & {'hfun', 'hele'}:
+        p['functions'] = True
+    if has & {'isub', 'ifun'}:
+        p['internal'] = True
+    if 't1' in has:
+        p['derived'] = True
+    if 'no-t1' in has:
+        p['derived'] = False
+    return {'dflags': d, 'pflags': p, 'need_has': sorted(has)}
 
 
 def option_combos(space, rng=None, limit=None):
@@ -365,7 +418,8 @@ class Entry:
     gate: object = None               # callable(wc, opts) -> bool : known mechanism would fire -> only in gated slices
     group: str = ''
     c40: bool = False                 # normalising transformation listed in C40
-    min_quick: int = 3
+    min_quick: int = 2
+    needs: dict = None                # requirements on the generated program: {'d': {decoration: bool}, 'p': {ProgGen flag: v}, 'has': [...]}
 
 
 def _T():
@@ -619,7 +673,10 @@ REGISTRY = [
     Entry('normalize_range_indexing', _each('normalize_range_indexing'), {'on': ['kern', 'all']},
           group='array_indexing', c40=True),
     Entry('normalize_array_shape_and_access', _each('normalize_array_shape_and_access'), group='array_indexing'),
-    Entry('flatten_arrays', _flatten, {'normalize': B, 'order': ['F', 'C'], 'start': [1, 0]}, group='array_indexing'),
+    # flatten_arrays expects shapes without ranges ("Resolve shapes being of type RangeIndex ... before flattening")
+    Entry('flatten_arrays', _flatten, {'normalize': B, 'order': ['F', 'C'], 'start': [1, 0]},
+          pre=lambda wc, o: o['normalize'] or not ('lbound' in wc.features or wc.marks.get('range_decl')),
+          group='array_indexing'),
     Entry('LowerConstantArrayIndices', _lower_const, {'recurse': B, 'ext': B}, pre=_has('lower_const'),
           gate=lambda wc, o: wc.rk == 'jprb' or (wc.marks.get('local_kind') and not o['ext']), group='array_indexing'),
     Entry('demote_variables', _demote, {'v': ['zv', 'zv+w2']}, group='array_indexing'),
@@ -809,6 +866,7 @@ class SEntry:
     group: str = 'scheduler'
     project: dict = field(default_factory=dict)    # make_project keyword arguments
     keep_originals: bool = False       # the build also contains the untransformed files (renaming transformations)
+    needs: dict = None
     fflags: tuple = ()
     min_quick: int = 2
 
@@ -948,11 +1006,50 @@ SCHED_REGISTRY = [
            {'dead': B, 'unused_args': B, 'unused_vars': B, 'kernel_only': B}),
     SEntry('sched:SanitiseTransformation', _s_sanitise, {'seq': B}),
     SEntry('sched:TransformLoopsTransformation', _s_loops),
-    SEntry('sched:LowerConstantArrayIndices', _s_lowerconst, {'ext': B},
-           pre=lambda wc, o: False),   # needs calls with constant subscripts only (crashes otherwise): in-process entry
     SEntry('sched:ParametriseTransformation', _s_parametrise, {'by_value': B},
            gate=lambda wc, o: o['by_value'] and wc.marks.get('local_kind')),
     SEntry('sched:pipeline', _s_combo, {'internals': B, 'derived': B},
            pre=lambda wc, o: wc.rk == 'jprb' and not wc.marks.get('has_t1') and not o['derived'] and _no_functions(wc),
            keep_originals=True, project={'with_free': True}),
 ]
+
+# requirements of the entries on the generated program (see make_case / slice_requirements): the case generated for a
+# registry slice turns on what the entries of the slice act on, so that every entry is exercised in every case of its slice
+NEEDS = {
+    'replace_selected_kind': {'d': {'local_kind': True}},
+    'sanitise_imports': {'d': {'unused_import': True}, 'p': {'kinds_module': True}},
+    'do_resolve_sequence_association': {'d': {'seq_assoc': True}, 'has': ['hsub']},
+    'SequenceAssociationTransformation': {'d': {'seq_assoc': True}, 'has': ['hsub']},
+    'LowerConstantArrayIndices': {'d': {'lower_const': True, 'local_kind': False}, 'p': {'kinds_module': False}},
+    'inline_functions': {'has': ['hfun']},
+    'inline_elemental_functions': {'d': {'fun_calls': True}},
+    'inline_statement_functions': {'d': {'stmt_func': True}},
+    'inline_internal_procedures': {'has': ['isub']},
+    'inline_marked_subroutines': {'d': {'inline_call': True}, 'has': ['hsub']},
+    'inline_constant_parameters': {'d': {'constants': True, 'use_constants': True}},
+    'do_remove_dead_code': {'d': {'dead_code': True}},
+    'do_remove_marked_regions': {'d': {'remove': True}},
+    'do_loop_interchange': {'d': {'interchange': True}},
+    'do_loop_fusion': {'d': {'fusion': True}},
+    'do_loop_fission': {'d': {'fission': True}},
+    'do_loop_unroll': {'d': {'unroll': True}},
+    'region_hoist': {'d': {'hoist_region': True}},
+    'outline_pragma_regions': {'d': {'outline': True}},
+    'extract_internal_procedures': {'has': ['isub']},
+    'remove_duplicate_args_from_calls': {'d': {'dup_args': True}},
+    'resolve_vector_notation': {'d': {'vec': True}},
+    'normalize_range_indexing': {'d': {'range_decl': True}},
+    'remove_explicit_array_dimensions': {'d': {'vec': True}},
+    'sched:DrHookTransformation': {},
+    'sched:DependencyTransformation': {'has': ['no-t1']},
+    'sched:DuplicateKernel': {'has': ['no-t1']},
+    'sched:RemoveKernel': {'has': ['hsub']},
+    'sched:DerivedTypeArgumentsTransformation': {'has': ['t1']},
+    'sched:ArgumentArrayShape': {'d': {'assumed_shape': True}, 'has': ['hsub']},
+    'sched:RemoveDuplicateArgs': {'d': {'dup_args': True}},
+    'sched:HoistVariables': {'p': {'kinds_module': True}, 'has': ['no-functions'], 'd': {'stmt_func': False, 'local_kind': False}},
+    'sched:TemporariesPoolAllocator': {'has': ['no-functions']},
+    'sched:pipeline': {'p': {'kinds_module': True}, 'has': ['no-functions', 'no-t1']},
+}
+for _e in REGISTRY + SCHED_REGISTRY:
+    _e.needs = NEEDS.get(_e.name)
